@@ -1,6 +1,7 @@
 import PolyVerif.Lemmas.Ligate
 import PolyVerif.Lemmas.LigateSys
 import PolyVerif.Lemmas.RingsWalk
+import PolyVerif.Gen.CloneFacts
 /-
 C09 — GoldenGate returns exactly the plasmids the overhangs allow.
 
@@ -27,8 +28,9 @@ about all runs of THAT system.  Its tie to the source is a SOFT obligation kept 
 Props/C09Pin.lean (`clone_structure_pinned`): harness/cmd/extract-clone re-reads clone.go on every run and the theorem
 compares the synchronisation vocabulary of the functions under `CircularLigate` and four order facts with what the Step
 rules assume; when it no longer holds (also after a harmless restructuring of the goroutines, e.g. a bounded worker pool
-with a waiter goroutine) the evidence records it and no alarm is raised.  What IS judged on every run are the results
-under GOMAXPROCS 1/2/16 and the race detector.
+with a waiter goroutine) the evidence records it and no alarm is raised.  One structural fact is a HARD obligation of this
+module, `clone_sends_unconditional`: constructs are handed over by plain blocking sends (a lossy `select` send passes
+every dynamic run).  What IS judged on every run are the results under GOMAXPROCS 1/2/16 and the race detector.
 
 `GoldenGate(parts, enzyme)` is `CircularLigate` on the concatenated cuts (`goldenGate_eq`), so every theorem applies to
 it with `pool := goldenGatePool cut parts`.
@@ -339,6 +341,14 @@ theorem ligate_order {pool' pool : List Fragment} (hp : pool'.Perm pool) {arr' a
 theorem ligate_schedule_perm (pool : List Fragment) {arr : List Str} (harr : arr.Perm (emitted pool)) (k : Key) :
     k ∈ (circularLigate pool arr).map key ↔ k ∈ (circularLigateDFS pool).map key :=
   ligate_order (List.Perm.refl pool) harr (List.Perm.refl _) k
+
+/-- HARD structural obligation (the rest of the structural pin is soft, Props/C09Pin.lean).  In the functions under
+`clone.CircularLigate` no send on the construct channel is the communication of a `select` case: every construct is handed
+over by a plain blocking send — no `default`, no timer, no alternative through which a construct could be dropped
+(`Gen.cloneSendsUnconditional`, re-extracted from clone.go by harness/cmd/extract-clone on every run).  `Step.send`, the
+conservation invariant `Inv.conserve` and hence "a maximal run delivers a permutation of ALL sends" assume exactly this,
+and no dynamic run can be relied on to expose a lossy send (it needs a stalled collector or > 4096 pending constructs). -/
+theorem clone_sends_unconditional : Gen.cloneSendsUnconditional = true := by decide
 
 /-- no fuel-exhausted call in any spawn tree: the model recursion is the Go recursion -/
 theorem fuel_never_exhausted (pool : List Fragment) : ∀ w ∈ seedWorks pool, noStuck w = true := by
